@@ -792,6 +792,122 @@ func realRouter(id int, retain uint) {
 	r.DistinctStr(sig)
 }
 
+// groupResend: the group layer on top of the router: what a lost indication
+// brings back must be the telegrams that were sent, byte for byte.
+func groupResend(seed int64) {
+	sig := fmt.Sprintf("group-router resend seed=%d", seed)
+	r.Crumb("C14 %s", sig)
+	attrs := map[string]string{"workload": "group-router"}
+	rng := rand.New(rand.NewSource(seed))
+	s := memsock.New("udp")
+	gr, err := knx.NewGroupRouterOnSocket(s, knx.RouterConfig{RetainCount: 8})
+	if err != nil {
+		return
+	}
+	defer gr.Close()
+	var sent [][]byte
+	n := 3 + rng.Intn(6)
+	for i := 0; i < n; i++ {
+		from := s.Len()
+		ev := knx.GroupEvent{Command: knx.GroupCommand(rng.Intn(3)), Source: cemi.IndividualAddr(rng.Intn(65536)), Destination: cemi.GroupAddr(1 + rng.Intn(65535)), Data: []byte{byte(i + 1), byte(rng.Intn(256)), byte(i)}}
+		if gr.Send(ev) != nil {
+			return
+		}
+		for _, e := range s.LogFrom(from) {
+			if e.Kind == memsock.Tx && e.P.Service == spec.SvcRoutingInd {
+				sent = append(sent, e.Bytes)
+			}
+		}
+	}
+	k := 1 + rng.Intn(n)
+	from := s.Len()
+	if !deliver(s, &knxnet.RoutingLost{Count: uint16(k)}, sig) || !deliver(s, &knxnet.RoutingLost{Count: 0}, sig) {
+		return
+	}
+	deadline := time.Now().Add(3 * time.Second)
+	var got [][]byte
+	for time.Now().Before(deadline) {
+		got = got[:0]
+		for _, e := range s.LogFrom(from) {
+			if e.Kind == memsock.Tx && e.P.Service == spec.SvcRoutingInd {
+				got = append(got, e.Bytes)
+			}
+		}
+		if len(got) >= k {
+			break
+		}
+		time.Sleep(200 * time.Microsecond)
+	}
+	time.Sleep(300 * time.Microsecond)
+	atomic.AddInt64(&nLost, 1)
+	atomic.AddInt64(&nResent, int64(len(got)))
+	want := sent[len(sent)-k:]
+	same := len(got) == len(want)
+	for i := 0; same && i < len(got); i++ {
+		same = string(got[i]) == string(want[i])
+	}
+	if !same {
+		r.Violate("resend.sequence", attrs, map[string]interface{}{"history": sig, "lost_count": k, "sent": hexes(sent), "resent": hexes(got)},
+			"[%s] after a lost indication with count %d the group router retransmitted %d frames that are not the last %d frames it had sent (byte for byte, in order)", sig, k, len(got), k)
+		return
+	}
+	atomic.AddInt64(&nHist, 1)
+	r.Eval(1)
+	r.DistinctStr(sig)
+}
+
+func hexes(bs [][]byte) []string {
+	var out []string
+	for _, b := range bs {
+		out = append(out, fmt.Sprintf("%x", b))
+	}
+	return out
+}
+
+// busyThenClose: Close falls into the pause a busy indication imposed; every
+// Send, waiting or later, must still return (with the socket's error).
+func busyThenClose(seed int64) {
+	sig := fmt.Sprintf("busy-then-close seed=%d", seed)
+	r.Crumb("C14 %s", sig)
+	attrs := map[string]string{"workload": "busy-then-close"}
+	rng := rand.New(rand.NewSource(seed))
+	s := memsock.New("udp")
+	rt, err := knx.NewRouterOnSocket(s, knx.RouterConfig{})
+	if err != nil {
+		return
+	}
+	rt.Send(gateway.Ind(1))
+	if !deliver(s, &knxnet.RoutingBusy{WaitTime: 50 * time.Millisecond, Control: 1}, sig) {
+		return
+	}
+	var wg sync.WaitGroup
+	waiting := rng.Intn(3)
+	for g := 0; g < waiting; g++ {
+		wg.Add(1)
+		go func(g int) { defer wg.Done(); rt.Send(gateway.Ind(uint32(10 + g))) }(g)
+	}
+	time.Sleep(time.Duration(rng.Intn(20)) * time.Millisecond)
+	rt.Close()
+	wg.Add(1)
+	var late error
+	go func() { defer wg.Done(); late = rt.Send(gateway.Ind(99)) }()
+	done := make(chan struct{})
+	go func() { wg.Wait(); close(done) }()
+	select {
+	case <-done:
+		if late == nil {
+			r.Violate("send.after-close", attrs, map[string]interface{}{"history": sig}, "[%s] Send after Close reported success", sig)
+			return
+		}
+	case <-time.After(5 * time.Second):
+		r.Violate("send.deadlock", attrs, map[string]interface{}{"history": sig, "goroutines": clip(mon.LibGoroutines("knx-go/knx."))}, "[%s] after Close during a busy pause, Sends (waiting or later) did not return within 5 s", sig)
+		return
+	}
+	atomic.AddInt64(&nHist, 1)
+	r.Eval(1)
+	r.DistinctStr(sig)
+}
+
 func head(a []uint32) []uint32 {
 	if len(a) > 10 {
 		return a[:10]
@@ -839,6 +955,10 @@ func run(rr *mon.Run) {
 	}
 	if !r.Enough() {
 		strand(r.Seed()*9300, r.Pick(30000, 600000))
+	}
+	for i := 0; i < r.Pick(20, 2000) && !r.Enough(); i++ {
+		groupResend(r.Seed()*9400 + int64(i))
+		busyThenClose(r.Seed()*9500 + int64(i))
 	}
 	for i, rc := range []uint{0, 5, 1, 64} {
 		if !r.Enough() {
